@@ -47,6 +47,7 @@ class Ctx:
         self.engines = []
         self.notes = []
         self.extra = {}
+        self.known = {k['key']: k for k in load_known() if k.get('property') == pid and k.get('status') == 'known'}
 
     def log(self, *a):
         print('[%s %6.1fs]' % (self.id, time.time() - self.t0), *a, file=sys.stderr, flush=True)
@@ -128,8 +129,9 @@ def main(argv=None):
             ctx.inconclusive.append('native replay could not be run for %s: %s' % (f.key, f.replay_out[-300:]))
             continue
         if f.key in known_keys:
+            if not any(k.key == f.key for k in known_hit):
+                print('KNOWN-FINDING: property=%s %s — %s' % (pid, f.key, known_keys[f.key].get('what', f.text)))
             known_hit.append(f)
-            print('KNOWN-FINDING: property=%s %s — %s' % (pid, f.key, known_keys[f.key].get('what', f.text)))
         else:
             path = os.path.join(ROOT, 'replays', pid, slug(f.key) + '.json')
             json.dump({'property': pid, 'key': f.key, 'text': f.text, 'cmd': f.replay_cmd, 'witness': f.witness, 'replay_output': f.replay_out},
